@@ -8,6 +8,7 @@ import (
 	"sort"
 	"strings"
 	"sync"
+	"time"
 
 	"github.com/bnb-chain/tss-lib/v2/tss"
 )
@@ -49,6 +50,7 @@ type Node struct {
 	Err      *tss.Error
 	Emitted  []tss.Message
 	Rand     *lockedRand
+	Dead     bool          // a call into the party panicked: it may still hold its lock, so it is never called again
 	Secrets  []namedSecret // long-term secrets this party holds when the run starts (filled by the net builders)
 }
 
@@ -162,8 +164,22 @@ func (n *Net) collect(i int) []string {
 	}
 }
 
+// hungParties: parties whose WaitingFor did not return (their lock was left held by a crashed call)
+var hungParties sync.Map
+
 func waitingIdx(p tss.Party) []int {
-	w := p.WaitingFor()
+	if _, dead := hungParties.Load(p); dead {
+		return []int{}
+	}
+	ch := make(chan []*tss.PartyID, 1)
+	go func() { ch <- p.WaitingFor() }()
+	var w []*tss.PartyID
+	select {
+	case w = <-ch:
+	case <-time.After(20 * time.Second):
+		hungParties.Store(p, true)
+		return []int{}
+	}
 	out := make([]int, 0, len(w))
 	for _, x := range w {
 		out = append(out, x.Index)
@@ -192,6 +208,8 @@ func (n *Net) Start(i int) {
 			if e := recover(); e != nil {
 				n.Panics = append(n.Panics, fmt.Sprintf("Start %s: %v", nd.Name, e))
 				ev.Err = "panic"
+				nd.Dead = true
+				hungParties.Store(nd.Party, true)
 			}
 		}()
 		if err := nd.Party.Start(); err != nil {
@@ -227,7 +245,7 @@ func (n *Net) Deliver(k int, keep bool) {
 	if !keep {
 		n.Pending = append(n.Pending[:k], n.Pending[k+1:]...)
 	}
-	if n.StopOnError && n.Nodes[d.To].Err != nil {
+	if n.StopOnError && n.Nodes[d.To].Err != nil || n.Nodes[d.To].Dead {
 		return
 	}
 	n.Delivered = append(n.Delivered, d)
@@ -238,6 +256,8 @@ func (n *Net) Deliver(k int, keep bool) {
 			if e := recover(); e != nil {
 				n.Panics = append(n.Panics, fmt.Sprintf("Update %s <- %s %s: %v", nd.Name, ev.From, ev.Type, e))
 				ev.Err = "panic"
+				nd.Dead = true
+				hungParties.Store(nd.Party, true)
 			}
 		}()
 		ok, err := nd.Party.UpdateFromBytes(d.Wire, d.Msg.GetFrom(), d.Bcast)
